@@ -317,6 +317,53 @@ def extra_oracles(rng, tier):
                     out.append(Violation("c05-status-line", "%s made partial with %r, status set to %s" % (name, ranges, setter),
                                          "status line %r, the registered phrase of %d is %r"
                                          % (calls[0][0], code, http.client.responses[code])))
+    # "an iterable of bytes as its concatenation in order": every shape of iterable (sized or lazy, empty or not), alone and
+    # as the body of the tuple form
+    import collections
+    from poorwsgi.wsgi import to_response
+
+    class Chunks:
+        def __init__(self, items):
+            self.items = items
+
+        def __iter__(self):
+            return iter(self.items)
+
+        def __len__(self):
+            return len(self.items)
+
+    shapes = {"tuple-in-tuple": lambda c: (tuple(c),), "deque": collections.deque, "iter": iter,
+              "sized class": Chunks, "dict values": lambda c: dict(enumerate(c)).values(),
+              "generator": lambda c: (x for x in c), "map": lambda c: map(bytes, c),
+              "frozenset": lambda c: frozenset(c[:1]), "range(0)": lambda c: range(0) if not c else iter(c)}
+    for chunks in ([], [b"only"], [b"ab", b"", b"c"], [b""], [b"", b""]):
+        for sname, shape in shapes.items():
+            for form in ("alone", "typed", "full"):
+                value = shape(list(chunks))
+                if sname == "tuple-in-tuple":
+                    value = value[0]
+                wantbody = b"".join(chunks[:1] if sname == "frozenset" else chunks)
+                if form == "alone":
+                    ret, wct, wst = (value,), "text/html; charset=utf-8", 200
+                elif form == "typed":
+                    ret, wct, wst = (value, "application/x-chunks"), "application/x-chunks", 200
+                else:
+                    ret, wct, wst = (value, "text/plain", {"X-Extra": "1"}, 201), "text/plain", 201
+                n += 1
+                label = "%s of %r returned %s" % (sname, chunks, form)
+                calls = []
+                try:
+                    res = to_response(ret)
+                    body = b"".join(res(lambda s_, h_: calls.append((s_, h_))))
+                except Exception as err:
+                    out.append(Violation("c05-iterable", label, "raised %r" % (err,)))
+                    continue
+                hs = dict((k.lower(), v) for k, v in calls[0][1])
+                if int(calls[0][0][:3]) != wst or body != wantbody or hs.get("content-type") != wct or \
+                        (form == "full" and hs.get("x-extra") != "1"):
+                    out.append(Violation("c05-iterable", label, "answered %s %r with Content-Type %r, an iterable of bytes is "
+                                         "delivered as its concatenation %r with status %d and Content-Type %r"
+                                         % (calls[0][0], body, hs.get("content-type"), wantbody, wst, wct)))
     return out, {"evaluations": n, "distinct_nontrivial": n}
 
 
